@@ -84,6 +84,7 @@ def run(rep, tier):
     rep.rule('R03.1', 'sibling agreement: for every skeleton fact computed for one engine the other engine has the same fact -- phase-protocol verdict and event alphabet, iteration directions per site, exact _flags relation (set of (flags, return, events, flags\') tuples), monitor-protocol verdict, containment status of every callback call, run-state members covered by reset(), serialization key set')
     rep.rule('R03.3', 'isInFinal treats pseudo-states as neutral: a history child of a parallel does not keep the parallel from being final')
     rep.rule('R03.4', 'both engines use all terms of the conflict definition: the fast engine\'s precomputed matrix (same source, source ancestry both ways, exit-set overlap both ways) and the large engine\'s lazily filled cache (source ancestry both ways, exit-set overlap both ways)')
+    rep.rule('R03.6', 'the fast engine\'s children relation holds direct children only (as in the large engine and in the transpiler tables): the bit is not set while walking up the ancestors')
     rep.rule('R03.5', 'both engines compute the transition domain with the same (specified) quantifier shape: source only if internal, compound and all targets inside; else nearest compound ancestor containing all targets')
     rep.rule('R03.2', 'registration: the factory registers one instance of each engine class, their names are distinct ("large", "fast"), the default engine of InterpreterImpl::init is a registered class')
     rep.assume('equality of traces per input is not decided; agreement is established on structure')
@@ -251,6 +252,24 @@ def run(rep, tier):
             terms.add('exit-overlap#%d' % (1 + sum(1 for t in terms if t.startswith('exit-overlap'))))
     want_terms = {'same-source', 'source-ancestry#1', 'source-ancestry#2', 'exit-overlap#1', 'exit-overlap#2'}
     rep.check(terms == want_terms, 'R03.4', 'FastMicroStep::init|conflict terms', fi_.where(), 'the conflict matrix marks a pair as conflicting for %s; Predicates.cpp::conflicts: same source, source ancestry both ways, exit sets intersect; missing: %s' % (sorted(terms), sorted(want_terms - terms)))
+
+    # ---- R03.6 children relation of the fast engine
+    fi2 = fb.fn('uscxml::FastMicroStep::init')
+    sets = []
+    for n in fi2.walk():
+        if n['k'] in ('CXXOperatorCallExpr', 'BinaryOperator') and n.get('op') == '=' and any(m[0] == 'BIT_SET_AT' for m in (n.get('mac') or [])):
+            names = [x['ref'].get('name') for x in sub(n) if x['k'] == 'MemberExpr']
+            if 'children' in names:
+                sets.append(n)
+    if not sets:
+        raise AnalysisBroken('FastMicroStep::init: the statement that sets the children bits was not found')
+    for n in sets:
+        in_walk = [a for a in fi2.ancestors(n) if a['k'] in ('WhileStmt', 'ForStmt', 'DoStmt') and any(
+            x.get('callee', {}).get('q', '').endswith('getParentNode') for x in sub(a['c'][-1]))]
+        # the outer loop over all states also contains getParentNode calls; the ancestor walk is the innermost loop whose *condition* tests the parent cursor
+        walk = [a for a in in_walk if a['k'] == 'WhileStmt' and any(x['k'] == 'DeclRefExpr' and x['ref'].get('name') == 'parent' for x in sub(a['c'][0]))]
+        rep.check(not walk, 'R03.6', 'FastMicroStep::init|children are direct children', locstr(n), 'the children bit is set %s' % (
+            'for the direct parent only' if not walk else 'inside the walk up the ancestors (loop at %s): `children` then holds all descendants and the deep-completion test `completion & children` never fires' % locstr(walk[0])))
 
     lt, lsite = large_conflict_terms(fb)
     want_l = {'source-ancestry#1', 'source-ancestry#2', 'exit-overlap#1'}
